@@ -73,6 +73,8 @@ MENU = {
     'ref': "c16.f.c = @c16.g()",
     'block_commented': ('BLOCK', 'c16.g', ["p = 'bc'", "# interior comment\n\n  q = 'after comment'", "r = 0"]),
     'multiline': "c16.f.c = {\n  'k': 1,\n}",
+    # characters str.splitlines() treats as line ends but the config language does not (they sit inside comments)
+    'odd_separators': "c16.f.a = 3  # page\x0cbreak \x85 next\n# \u2028 whole-line comment \x1c \x0b end",
 }
 INC = {
     'inc1.gin': ["c16.f.a = 'i1'", ('INCLUDE', 'inc2.gin'), "c16.g.p = 'i1p'"],
